@@ -568,6 +568,7 @@ theorem decides_setWithKnownFields (e : View) (d)
   simp only [documented] at hd
   cases hr : e.raw with
   | unset => rw [hr] at hd; cases hd; exact decides_pass _ _ (by simp [verdict, hr])
+  | iterator => rw [hr] at hd; cases hd; exact decides_pass _ _ (by simp [verdict, hr])
   | none => rw [hr] at hd; cases hd; exact decides_pass _ _ (by simp [verdict, hr])
   | notIterable => rw [hr] at hd; cases hd; exact decides_pass _ _ (by simp [verdict, hr])
   | badPairs => rw [hr] at hd; cases hd; exact decides_pass _ _ (by simp [verdict, hr])
@@ -590,6 +591,7 @@ theorem decides_setWithAllFields (e : View) (d)
   simp only [documented] at hd
   cases hr : e.raw with
   | unset => rw [hr] at hd; cases hd; exact decides_pass _ _ (by simp [verdict, hr])
+  | iterator => rw [hr] at hd; cases hd; exact decides_pass _ _ (by simp [verdict, hr])
   | none => rw [hr] at hd; cases hd; exact decides_pass _ _ (by simp [verdict, hr])
   | notIterable => rw [hr] at hd; cases hd; exact decides_pass _ _ (by simp [verdict, hr])
   | badPairs => rw [hr] at hd; cases hd; exact decides_pass _ _ (by simp [verdict, hr])
@@ -632,6 +634,7 @@ theorem decides_luhn10 (e : View) (d) (hd : documented .luhn10 e = some d) :
     exact decides_fail _ _ "invalid" [] (by simp [verdict, hv])
   | str s => rw [hv] at hd; simp [numOf] at hd
   | elem s => rw [hv] at hd; simp [numOf] at hd
+  | method o n => rw [hv] at hd; simp [numOf] at hd
   | int i =>
     rw [hv] at hd
     simp only [numOf, Option.some.injEq] at hd
@@ -669,6 +672,7 @@ theorem decides_isEmail (nl : Bool) (e : View) (d)
   | int i => rw [hv] at hd; cases hd
   | bool b => rw [hv] at hd; cases hd
   | elem u => rw [hv] at hd; cases hd
+  | method o n => rw [hv] at hd; cases hd
 
 /-- **isEmail_length_on_idna**: the length assertions are applied to the *converted* domain.
     Whatever the address looks like as text (in particular however short its domain is before
@@ -799,22 +803,54 @@ theorem addError_spec (errors : List Str) (s : Str) :
   · simp [h]
   · simp [h]
 
+/-- the model's environment has no translator: `find_transformer` yields `None` -/
+theorem envOf_no_translator (v : V) (e : View) (info : List (Str × Val)) :
+    findTransformer (envOf v e info).uState (envOf v e info).uAnc (envOf v e info).uBuiltin =
+      .ok none := rfl
+
+/-- whatever `expand_message` returns in the model's environment is the complete expansion of
+    the text chosen *for this message* (for a plain message: the message itself; for a triple:
+    the form selected by the count) -/
+theorem expansion_of_chosen (v : V) (e : View) (info : List (Str × Val)) (msg : Msg) (s : Str)
+    (hx : expandMessage (envOf v e info) msg = .ok s) :
+    ∃ text segs, chooseMessage (envOf v e info) none msg = .ok text ∧
+      (∀ t, msg = .plain t → text = t) ∧
+      parseFmt text = .ok segs ∧
+      (∀ k ∈ placeholdersOf segs, (rawLookup (envOf v e info).targets k).isSome = true) ∧
+      s = Flatland.C16.Proofs.expansion
+        (fun k => (rawLookup (envOf v e info).targets k).getD .none) segs := by
+  obtain ⟨u, text, segs, hu, hc, hp, hdef, hs⟩ :=
+    Flatland.C16.Proofs.expandMessage_ok_expansion _ _ _ hx
+  rw [envOf_no_translator] at hu
+  have hu' : u = none := by injection hu with h; exact h.symm
+  subst hu'
+  refine ⟨text, segs, hc, ?_, hp, hdef, hs⟩
+  intro t ht
+  subst ht
+  simp only [chooseMessage] at hc
+  injection hc with h
+  exact h.symm
+
 /-- **messages**: a run that returns records nothing on a true verdict; on a false verdict it
-    records exactly one message (`add_error` drops it only if the very same text is already
-    there), and that message is the *complete* expansion of a well-formed template — or nothing
-    at all only if the message attribute is the empty text. -/
+    looks up the validator's own message attribute `n.key` in the table and — unless that
+    message is the empty text, in which case nothing is recorded — records exactly the complete
+    expansion `s` of the text chosen for *that* message (every placeholder resolved in the
+    validator's environment and replaced), `add_error` dropping it only if the very same text
+    is already there. -/
 theorem messages (table : List BuiltinMsg) (v : V) (e : View) (errors : List Str) (o : Outcome)
     (h : runWith table v e errors = .ok o) :
     ∃ note, verdict v e = .ok (o.verdict, note) ∧ o.value = valueAfter v e ∧
       (note = none → o.errors = errors) ∧
       (∀ n, note = some n → ∃ msg, messageOf table v.className n.key = some msg ∧
         ((msg.truthy = false ∧ o.errors = errors) ∨
-         ∃ s u text segs, expandMessage (envOf v e n.info) msg = .ok s ∧
-           o.errors = (if s ∈ errors then errors else errors ++ [s]) ∧
+         (msg.truthy = true ∧ ∃ s text segs, expandMessage (envOf v e n.info) msg = .ok s ∧
+           chooseMessage (envOf v e n.info) none msg = .ok text ∧
+           (∀ t, msg = .plain t → text = t) ∧
            parseFmt text = .ok segs ∧
+           (∀ k ∈ placeholdersOf segs, (rawLookup (envOf v e n.info).targets k).isSome = true) ∧
            s = Flatland.C16.Proofs.expansion
-             (fun k => Flatland.C16.Proofs.trVal u
-               ((rawLookup (envOf v e n.info).targets k).getD .none)) segs)) := by
+             (fun k => (rawLookup (envOf v e n.info).targets k).getD .none) segs ∧
+           o.errors = (if s ∈ errors then errors else errors ++ [s])))) := by
   unfold runWith at h
   cases hv : verdict v e with
   | error r => rw [hv] at h; cases h
@@ -855,32 +891,33 @@ theorem messages (table : List BuiltinMsg) (v : V) (e : View) (errors : List Str
             | ok s =>
               rw [hx] at hn
               cases hn
-              obtain ⟨u, text, segs, hp, hs⟩ :=
-                Flatland.C16.Proofs.expandMessage_ok_expansion _ _ _ hx
-              exact Or.inr ⟨s, u, text, segs, rfl, addError_spec errors s, hp, hs⟩
+              obtain ⟨text, segs, hc, hpl, hp, hdef, hs⟩ := expansion_of_chosen v e n.info msg s hx
+              exact Or.inr ⟨rfl, s, text, segs, rfl, hc, hpl, hp, hdef, hs, addError_spec errors s⟩
 
-/-- **exactly one message on failure**: a (documented) false verdict always
-    completes and leaves the error list extended by exactly one fully expanded message (or
-    unchanged if that very text was already recorded) -/
+/-- **exactly one message on failure** (shipped templates): a documented false verdict always
+    completes; the validator's own message attribute exists in the regenerated table, and the
+    error list afterwards is the old one plus exactly the complete expansion `s` of the text
+    chosen for that message — unless the very same text `s` was already recorded. -/
 theorem false_verdict_records_one (v : V) (e : View) (errors : List Str)
     (hd : documented v e = some false) :
-    ∃ o s, run v e errors = .ok o ∧ o.verdict = false ∧ o.value = valueAfter v e ∧
-      (o.errors = errors ∨ o.errors = (if s ∈ errors then errors else errors ++ [s])) := by
+    ∃ n o msg text segs s, verdict v e = .ok (false, some n) ∧
+      messageOf Flatland.Generated.C16.builtinMessages v.className n.key = some msg ∧
+      chooseMessage (envOf v e n.info) none msg = .ok text ∧
+      (∀ t, msg = .plain t → text = t) ∧
+      parseFmt text = .ok segs ∧
+      (∀ k ∈ placeholdersOf segs, (rawLookup (envOf v e n.info).targets k).isSome = true) ∧
+      s = Flatland.C16.Proofs.expansion
+        (fun k => (rawLookup (envOf v e n.info).targets k).getD .none) segs ∧
+      run v e errors = .ok o ∧ o.verdict = false ∧ o.value = valueAfter v e ∧
+      o.errors = (if s ∈ errors then errors else errors ++ [s]) := by
   obtain ⟨note, hv, hiff⟩ := decides v e false hd
   cases note with
   | none => exact absurd (hiff.2 rfl) (by simp)
   | some n =>
-    obtain ⟨o, ho, hb⟩ := messages_total v e errors false n hv
-    obtain ⟨note', hv', hval, _, hsome⟩ := messages _ v e errors o ho
-    rw [hv] at hv'
-    have hn : note' = some n := by
-      have := hv'
-      simp only [Except.ok.injEq, Prod.mk.injEq] at this
-      exact this.2.symm
-    obtain ⟨msg, _, hcase⟩ := hsome n hn
-    rcases hcase with ⟨_, herr⟩ | ⟨s, _, _, _, _, herr, _, _⟩
-    · exact ⟨o, [], ho, hb, hval, Or.inl herr⟩
-    · exact ⟨o, s, ho, hb, hval, Or.inr herr⟩
+    obtain ⟨o, msg, s, hm, hx, ho, hb, hval, herr⟩ := messages_total v e errors false n hv
+    obtain ⟨text, segs, hc, hpl, hp, hdef, hs⟩ := expansion_of_chosen v e n.info msg s hx
+    exact ⟨n, o, msg, text, segs, s, hv, hm, hc, hpl, hp, hdef, hs, ho, hb, hval,
+      by rw [herr]; exact addError_spec errors s⟩
 
 /-- a true verdict records nothing (corollary of `messages` + the note/verdict link) -/
 theorem true_verdict_records_nothing (table : List BuiltinMsg) (v : V) (e : View)
